@@ -75,8 +75,12 @@ def regenerate():
     if not os.path.isdir(gen):
         return True, ""
     with Lock("gen"):
-        rc, out = sh(["go", "run", ".", "-repo", REPO, "-out", os.path.join(LEAN, "FunGen")], cwd=gen, env=GOENV,
-                     timeout=300)
+        for attempt in range(3):
+            rc, out = sh(["go", "run", ".", "-repo", REPO, "-out", os.path.join(LEAN, "FunGen")], cwd=gen, env=GOENV,
+                         timeout=300)
+            if rc == 0:
+                break
+            time.sleep(2)      # a Go toolchain hiccup (e.g. the shared build cache being trimmed): try again
     return rc == 0, out
 
 
@@ -168,9 +172,14 @@ def build_harness(race=False):
             moddir = os.path.join(WORK, "harness-alt")
             sh(["rm", "-rf", moddir]); sh(["cp", "-r", HARNESS, moddir])
             open(os.path.join(moddir, "go.mod"), "w").write(gm2)
-            rc, out = sh(cmd + ["."], cwd=moddir, env=env, timeout=1200)
+            bdir = moddir
         else:
-            rc, out = sh(cmd + ["."], cwd=HARNESS, env=env, timeout=1200)
+            bdir = HARNESS
+        for attempt in range(3):
+            rc, out = sh(cmd + ["."], cwd=bdir, env=env, timeout=1200)
+            if rc == 0 or "could not import" not in out and "no such file or directory" not in out:
+                break
+            time.sleep(2)      # the shared Go build cache was trimmed under the build: try again
     return rc == 0, out, out_bin
 
 
